@@ -95,7 +95,19 @@ func modelledFormats() []fmtDef {
 	cb := caps{null: true, boolean: true, float: true, bytes: true, intMin: negTwo64, intMax: maxU64, maxDepth: 4}
 	bc := caps{intMin: minI64, intMax: maxI64, maxDepth: 4}
 	bs := caps{null: true, boolean: true, float: true, bytes: true, intMin: minI64, intMax: maxU64, maxDepth: 4}
+	br := caps{null: true, boolean: true, bytes: true, intMin: new(big.Int).Neg(twoPow70), intMax: twoPow70, maxDepth: 4}
 	return []fmtDef{
+		{name: "asn1_ber", caps: br, enc: encBer, domain: berDomain, directed: func() []*val {
+			vs := directedCommon(br, []int{0, 1, 2, 126, 127, 128, 129, 255, 256}, []int{65536})
+			for _, s := range []string{"36893488147419103232", "-36893488147419103233", "-1180591620717411303424"} {
+				vs = append(vs, vInt(bi(s)))
+			}
+			return vs
+		}, bad: []string{
+			"", "30", "3080", "308000", "30800201", "0201", "02", "30ff00", "3089000000000000000000", // truncated / reserved / too long length-of-length
+			"0400", "0c00", "0100", "0200", "1f", "1f81", // zero-length primitives (as it is); unfinished high tag number
+			"308002010500", "3080020105", // one byte of the end marker / none
+		}},
 		{name: "bson", caps: bs, enc: encBson, domain: func(v *val) *val {
 			v = bsonDomain(v)
 			if v.k != kMap {
@@ -116,7 +128,7 @@ func modelledFormats() []fmtDef {
 		}},
 		{name: "msgpack", caps: mp, enc: encMsgpack, directed: func() []*val {
 			vs := directedCommon(mp, []int{0, 1, 15, 16, 17, 31, 32, 33, 255, 256, 257}, []int{65535, 65536})
-			for _, n := range []int{0, 1, 2, 3, 4, 8, 9, 16, 17, 255} {
+			for _, n := range []int{0, 1, 2, 3, 4, 8, 9, 16, 17, 255, 256, 65535, 65536} {
 				b := make([]byte, n)
 				for i := range b {
 					b[i] = byte(0xe2 - i*7)
